@@ -27,27 +27,42 @@ PROVED = ['lcm_den_multiplier / lcm_den_least / lcm_den_invariant [P]: the lcm o
           'hnf_reduce_det [P]: det(stored basis) = s * det(given basis) with s = +-1',
           'from_basis_returns_iff [P]: on an n x n basis from_basis returns a stored basis iff \\det <> 0 (total on full-rank input, panics on singular input)',
           'singly_gen_disc [P]: monic f of degree n >= 2, theta = Algebraic::new(f): the rows built by singly_gen are the unit vectors, the stored basis has determinant 1, and whenever '
-          'discriminant_with_min_poly returns d, d = disc(min_poly) (the input discf); singly_gen_disc_returns [P]: it returns discf when 2n < 2^64 (usize arithmetic)']
+          'discriminant_with_min_poly returns d, d = disc(min_poly) (the input discf); singly_gen_disc_returns [P]: it returns discf when 2n < 2^64 (usize arithmetic)',
+          'order_disc_spec / order_disc_iff [P]: Round2.order_disc (the discriminant as the correspondence check runs it: determinant, then the model of discriminant::discriminant '
+          'from Resultant.v, then the rest of discriminant_with_min_poly) returns d iff discriminant(min_poly) returns some discf and order_discriminant at discf returns d',
+          'disc_index_wired [P]: disc B = (A:B)^2 disc A for order_disc',
+          'singly_gen_disc_wired [P]: monic f of degree >= 2: if order_disc of singly_gen(Algebraic::new(f)) returns d then discriminant(f) returned d; singly_gen_disc_wired_returns [P]: '
+          'for 2n < 2^64 both return, with the same d, all divisions exact, and d lc f = (-1)^(n(n-1)/2) det Sylvester(f, f\') (C05 discriminant_spec)',
+          'from_basis_same_module [P]: the stored basis and the given n x n basis have the same integer row span',
+          'trivial_order_rows / trivial_order_module [P]: trivial_order_monic f (n = deg f >= 1) is from_basis of the identity rows and a vector is in the integer span of the stored basis '
+          'iff its coordinates are integers (the module Z + Z x + .. + Z x^(n-1))',
+          'non_monic_order_module / nm_rows_entry [P]: non_monic_initial_order f, whenever it returns, is from_basis of the rows the code builds (row 0 = 1, row i = a_n x^i + .. + a_(n-i+1) x), '
+          'the stored basis has the same span, and 1 lies in it',
+          'singly_gen_rows / singly_gen_module [P]: for canonical f of degree n >= 1 and theta a canonical coefficient list of length <= n, singly_gen f theta has the same outcome as from_basis '
+          'of the rows "coordinates of theta^k mod f", k < n; when it returns, the stored basis spans Z + Z theta + .. + Z theta^(n-1) and contains 1 and each power',
+          'union_total [P]: on n x n bases a, b (n >= 1) with a non-singular, union returns; union_total_stored [P]: in particular on two stored orders of the same dimension',
+          'order_disc_trace_form [P]: for canonical f of degree n >= 1 (2n < 2^64) and an n x n basis b with get_mult_table b f = Done t (the module is closed under multiplication with an integral '
+          'table), Order::discriminant returns det(Tr(w_i w_j)), the determinant of the integer trace-form matrix of the table: discriminant(min_poly) returns, the division is defined and '
+          'assert!(value.is_integer()) holds (disc(f) det(B)^2 / lc^(2n-2) = det Tr, proved without roots: Euler trace formula + resultant of the multiplication matrix); '
+          'order_discriminant_trace_form [P]: the same for order_discriminant at any d with d lc f = (-1)^(n(n-1)/2) Res(f\', f)']
 NOT_PROVED = ['singly_gen_disc for a monic LINEAR f (degree 1, theta a rational constant) and for non-monic f (not a claim of the property); proved for monic f of degree >= 2',
-              'constructors singly_gen / trivial_order_monic / non_monic_initial_order generate the intended modules (oracle: canonical form + same module on every case)',
-              'totality of union on full-rank input (partial correctness: statements carry "= Done r" or equate outcomes); from_basis is total exactly on non-singular bases (from_basis_returns_iff)',
-              'the discriminant is an integer whenever the module is an order (needs integrality of the trace form; the code asserts it)',
-              'disc(min_poly) itself: input of the model (see assumptions)']
-ASSUMPTIONS = ['the discriminant of the minimal polynomial (discriminant::discriminant, via resultant) is not modelled here: order_discriminant takes '
-               'its value as the argument discf, and the correspondence run hands the model the value the implementation computed '
-               '(checked on every case against an independent Sylvester-determinant discriminant); to be wired to coq/Model/Resultant.v',
-               'num::integer::lcm on BigInt taken as Z.lcm (non-negative)',
+              'non_monic_initial_order: that the module spanned by its rows is closed under multiplication (is an order) is not proved here; the rows and the module are (non_monic_order_module)',
+              'totality of get_mult_table on lattices closed under multiplication (order_disc_trace_form takes "get_mult_table b f = Done t" as the definition of "b spans an order")']
+ASSUMPTIONS = ['num::integer::lcm on BigInt taken as Z.lcm (non-negative)',
                'C02 (HNF canonicity, union, termination) and C18 (determinant = \\det) theorems are used as proved in coq/Refine (merged from main and area/linalg)']
 
 CLAIM = dict(
     technique='Coq proof about the Gallina model of Order (hnf_reduce, index, union, discriminant, constructors) + extracted-model-vs-implementation correspondence',
     text='Theorems in coq/Props/C15.v hold for all n x n rational bases, n >= 1, no size bound: bases of the same Z-module are stored identically (same outcome of '
          'from_basis), the stored form is a fixed point, index is multiplicative in chains and equals the determinant of the change of basis, which is positive for stored bases (index = |det S| > 0), disc B = (A:B)^2 disc A, '
-         'union returns a basis of the smallest module containing both arguments, is commutative, idempotent and absorbs sub-modules. The model (coq/Model/Order.v on top '
+         'union returns a basis of the smallest module containing both arguments, is commutative, idempotent, absorbs sub-modules and is total on full-rank input; the constructors store bases of '
+         'the intended modules (Z^n, the starting order rows, Z[theta]); the discriminant of an order (a lattice with an integral multiplication table) is the determinant of its trace form, '
+         'in particular the integrality assertion of discriminant_with_min_poly holds. The model (coq/Model/Order.v on top '
          'of Hnf.v and LinAlg.v) reproduces the routines statement by statement including assertions, the explicit panic of index, bounds checks on rank-deficient input '
          'and the usize arithmetic of the discriminant; it is tied to /repo by running the extracted model and impl_svc on the same constructor paths.',
-    note='disc(min_poly) is an input of the model (see assumptions). Statements are partial-correctness statements or equalities of outcomes; the power-basis discriminant is proved for monic f of degree >= 2 (singly_gen_disc); '
-         'the modules generated by the other constructors are checked by independent Fraction oracles on every explored input.',
+    note='disc(min_poly) is computed by the model itself (Round2.order_disc = Order.order_discriminant at the value of Resultant.discriminant, the C05 model): the model side of op ord_disc '
+         'receives only the order and f. Statements are partial-correctness statements or equalities of outcomes, with totality proved separately for from_basis (exactly the non-singular bases) and union (full-rank input); the power-basis discriminant is proved for monic f of degree >= 2 (singly_gen_disc); '
+         'the modules generated by the constructors are proved (trivial_order_module, non_monic_order_module, singly_gen_module) and also checked by independent Fraction oracles on every explored input.',
     ref='DESIGN.md section 4, C15')
 
 def fr(l): return [F(x) for x in l]
@@ -123,13 +138,6 @@ def o_disc(G, f, power_monic=False):
         if power_monic and r[1] != dp: return 'power-basis discriminant %s != disc f %s' % (r[1], dp)
     return orc
 
-def disc_model(O, f):
-    def mk(ia):
-        d = 0
-        if ia.kind == 'ok' and ia.val[0][0] == 'ok': d = ia.val[0][1]
-        return line('ord_disc', d, O, f)
-    return mk
-
 def disc_compare(ia, ma):
     if ia.kind != 'ok': return lib.default_compare(ia, ma)      # the constructor panicked: same panic expected
     r = ia.val[1]
@@ -138,7 +146,8 @@ def disc_compare(ia, ma):
     return None
 
 def disc_case(O, f, oracle=None, nontrivial=True, tag='disc'):
-    return Case('ord_disc', line('ord_disc', O, f), model=disc_model(O, f), compare=disc_compare, oracle=oracle, nontrivial=nontrivial,
+    # the model receives the same line as the implementation: it computes discriminant(f) itself (Round2.order_disc)
+    return Case('ord_disc', line('ord_disc', O, f), compare=disc_compare, oracle=oracle, nontrivial=nontrivial,
                 tag=tag, always_oracle=oracle is not None)
 
 # ---------------------------------------------------------------- generators
